@@ -147,6 +147,11 @@ class Library:
             ex.oblige("division-by-nonzero", b != 0, kind="safety", node=node)
             if a.sort() == INT:
                 a, b = z3.ToReal(a), z3.ToReal(b)
+            if ex.opts.get("opaque_div") and not z3.is_rational_value(z3.simplify(b)):
+                # sound abstraction: the quotient by a symbolic divisor is an uninterpreted function of its operands (what is proved holds for real division
+                # in particular); keeps nonlinear arithmetic out of queries that only compare the same quotient with itself
+                ex.assumptions_used.add("x / y with a symbolic divisor abstracted to an uninterpreted function in this unit (sound for proofs)")
+                return RDIV(a, b)
             return a / b
         if isinstance(op, ast.FloorDiv):
             return py_floordiv(ex, a, b)[0]
